@@ -87,15 +87,18 @@ def check_spec(spec, outs=None, pens=None):
     for i, op in enumerate(spec["ops"]):
         t.maxrow = t.cy
         t.written = set()
+        scrolled0 = t.scrolled
         if op[0] == "render":
             _, cfg, done, W, H, scr = op
             t.W = W
+            t.rows = H
             feed(t, outs[i + 1], pens)
             new_h = min(scr["height"], H)
             # from scratch: a fresh renderer on a fresh terminal
             sspec = {"fs": spec["fs"], "cfgs": spec["cfgs"], "ops": [op]}
             souts = c06_impl.run_impl(sspec, pens)
             t2 = Term(W)
+            t2.rows = H
             feed(t2, souts[0], pens)
             feed(t2, souts[1], pens)
             msg = compare_terms(t, t2, max(H, prev_h) + 2, pens)
@@ -107,13 +110,16 @@ def check_spec(spec, outs=None, pens=None):
             resized = last_size is not None and last_size != (W, H)
             last_size = (W, H)
             if not done:
-                if t.maxrow > max(H - 1, 0) and not resized:
-                    fails.append((i, "scroll", "cursor reached row %d with %d rows available" % (t.maxrow, H)))
+                if t.scrolled != scrolled0 and not resized:
+                    fails.append((i, "scroll", "the terminal (%d rows) scrolled %d line(s) during a non-final render" % (H, t.scrolled - scrolled0)))
                 prev_h = new_h
             else:
-                if (t.cx, t.cy) != (0, new_h) or t.pen != 0 or t.aw != 1:
+                exp_scroll = 1 if new_h >= H else 0     # the final newline may scroll a full terminal once
+                if t.scrolled - scrolled0 != exp_scroll and not resized:
+                    fails.append((i, "scroll", "the terminal (%d rows) scrolled %d line(s) during the final render of a %d-row output" % (H, t.scrolled - scrolled0, new_h)))
+                if (t.cx, t.cy) != (0, new_h - exp_scroll) or t.pen != 0 or t.aw != 1:
                     fails.append((i, "done-epilogue", "after the done render: cursor %r (expected (0, %d)), pen %r, autowrap %d" % (
-                        (t.cx, t.cy), new_h, pens.strs[t.pen] if t.pen < len(pens.strs) else t.pen, t.aw)))
+                        (t.cx, t.cy), new_h - exp_scroll, pens.strs[t.pen] if t.pen < len(pens.strs) else t.pen, t.aw)))
                 t.shift_origin(t.cy)
                 prev_h = 0
         elif op[0] == "erase":
